@@ -30,6 +30,19 @@ enum Container {
     VecTuple,
     BitArr,
     BitTuple,
+    /// vectors of a bulky gene type (112 bytes): "for all gene types" includes the ones larger than a cache line
+    BulkyArr,
+    BulkyTuple,
+}
+
+#[derive(Clone, Debug, PartialEq)]
+struct Bulky {
+    tag: Tagged,
+    ballast: [u64; 12],
+}
+
+fn bulky(parent: u8, len: usize) -> Vec<Bulky> {
+    (0..len).map(|i| Bulky { tag: (parent, i), ballast: [i as u64 ^ u64::from(parent); 12] }).collect()
 }
 
 const CONTAINERS: [Container; 4] = [Container::VecArr, Container::VecTuple, Container::BitArr, Container::BitTuple];
@@ -177,6 +190,25 @@ fn run_xo(kind: Kind, container: Container, la: usize, lb: usize, bits: Option<u
             };
             match r {
                 Ok(c) => classify_vec(&c),
+                Err(DifferentGenomeLength(x, y)) => Out::DiffLen(x, y),
+            }
+        }
+        Container::BulkyArr | Container::BulkyTuple => {
+            let (a, b) = (bulky(0, la), bulky(1, lb));
+            let r: Result<Vec<Bulky>, DifferentGenomeLength> = match (kind, container) {
+                (Kind::TwoPoint, Container::BulkyArr) => TwoPointXo.recombine([a, b], rng),
+                (Kind::TwoPoint, _) => TwoPointXo.recombine((a, b), rng),
+                (Kind::Uniform, Container::BulkyArr) => UniformXo.recombine([a, b], rng),
+                (Kind::Uniform, _) => UniformXo.recombine((a, b), rng),
+            };
+            match r {
+                Ok(c) => {
+                    let damaged = c.iter().position(|g| g.ballast != [g.tag.1 as u64 ^ u64::from(g.tag.0); 12]);
+                    match (classify_vec(&c.iter().map(|g| g.tag).collect::<Vec<_>>()), damaged) {
+                        (Out::Child { from_b, alien: None, len }, Some(i)) => Out::Child { from_b, alien: Some(format!("gene {i} of the child is not a whole gene of either parent")), len },
+                        (out, _) => out,
+                    }
+                }
                 Err(DifferentGenomeLength(x, y)) => Out::DiffLen(x, y),
             }
         }
@@ -339,7 +371,11 @@ fn exec_prim_gene(la: usize, lb: usize, index: usize, seed: u64, obs: &mut Obs) 
     let mut g = Xo::from_seed(seed);
     let a0 = Bitstring { bits: (0..la).map(|_| g.coin()).collect() };
     let b0 = Bitstring { bits: (0..lb).map(|_| g.coin()).collect() };
-    let (mut a, mut b) = (a0.clone(), b0.clone());
+    let (mut a, mut b) = match seed % 3 {
+        0 => (a0.clone(), b0.clone()),
+        1 => (with_room(&a0.bits, la.max(lb)), with_room(&b0.bits, la.max(lb))),
+        _ => (with_room(&a0.bits, index.min(la.max(lb) + 4) + 1), with_room(&b0.bits, index.min(la.max(lb) + 4) + 2)),
+    };
     let r = catch(|| a.crossover_gene(&mut b, index).is_ok());
     let mut v = Vec::new();
     let inside = index < la && index < lb;
@@ -376,11 +412,38 @@ fn exec_prim_gene(la: usize, lb: usize, index: usize, seed: u64, obs: &mut Obs) 
     v
 }
 
+/// The same bits in a buffer with room for `capacity` bits (a genome that was built by pushing, or shortened, has
+/// spare room; equal genomes behave equally whatever room their buffers have).
+fn with_room(bits: &[bool], capacity: usize) -> Bitstring {
+    let mut v = Vec::with_capacity(capacity.max(bits.len()));
+    v.extend_from_slice(bits);
+    Bitstring { bits: v }
+}
+
 fn exec_prim_segment(la: usize, lb: usize, start: usize, end: usize, seed: u64, obs: &mut Obs) -> Vec<Violation> {
+    let mut v = Vec::new();
+    // buffers: exact / each genome with room for as many bits as the longer one has / a little more room
+    for room in 0..3usize {
+        v.extend(exec_prim_segment_room(la, lb, start, end, seed, room, obs));
+        if !v.is_empty() {
+            break;
+        }
+    }
+    v
+}
+
+fn exec_prim_segment_room(la: usize, lb: usize, start: usize, end: usize, seed: u64, room: usize, obs: &mut Obs) -> Vec<Violation> {
     let mut g = Xo::from_seed(seed);
     let a0 = Bitstring { bits: (0..la).map(|_| g.coin()).collect() };
     let b0 = Bitstring { bits: (0..lb).map(|_| g.coin()).collect() };
-    let (mut a, mut b) = (a0.clone(), b0.clone());
+    let (mut a, mut b) = match room {
+        0 => (a0.clone(), b0.clone()),
+        1 => (with_room(&a0.bits, la.max(lb)), with_room(&b0.bits, la.max(lb))),
+        _ => (with_room(&a0.bits, la + 1 + (seed % 3) as usize), with_room(&b0.bits, lb + 3)),
+    };
+    if room > 0 {
+        obs.hit("probe.exchange-on-genomes-with-spare-capacity");
+    }
     let r = catch(|| a.crossover_segment(&mut b, start..end).is_ok());
     let mut v = Vec::new();
     let class = if start > end {
@@ -692,7 +755,7 @@ impl Check for C10 {
             };
         }
         let kind = if g.coin() { Kind::TwoPoint } else { Kind::Uniform };
-        let container = *g.pick(&CONTAINERS);
+        let container = if g.chance(1, 8) { *g.pick(&[Container::BulkyArr, Container::BulkyTuple]) } else { *g.pick(&CONTAINERS) };
         let la = match g.below(8) {
             0 => 0,
             1 => 1,
